@@ -8,9 +8,115 @@
 #include <semaphore.h>
 #include <stdarg.h>
 
+/* ---- op `main`: the REAL main() of iodined.c (option handling, start-up validation) up to the call of tunnel();
+ * everything that touches the operating system is substituted below, every substituted call is logged.
+ * The real tunnel() is a `static` function of the same file; its definition and the one call in main() are told
+ * apart by the first token of the first argument (`int tun_fd` in the definition, `tun_fd` in the call). */
+#include <setjmp.h>
+#include <grp.h>
+#include <pwd.h>
+#include <netdb.h>
+#include <getopt.h>
+#include <termios.h>
+#ifdef HAVE_SYSTEMD
+#include <systemd/sd-daemon.h>
+#endif
+struct dnsfd;
+struct passwd;
+static int verif_tunnel_stub(int tun_fd, struct dnsfd *dns_fds, int bind_fd, int max_idle_time);
+void verif_warnx(const char *fmt, ...);
+void verif_warn(const char *fmt, ...);
+int verif_fprintf(FILE *f, const char *fmt, ...);
+int verif_getopt(int argc, char *const argv[], const char *optstring);
+char *verif_getenv(const char *name);
+struct passwd *verif_getpwnam(const char *name);
+int verif_setgroups(size_t n, const gid_t *g);
+int verif_setgid(gid_t g);
+int verif_setuid(uid_t u);
+int verif_sd_listen_fds(int unset);
+int verif_sd_is_socket(int fd, int family, int type, int listening);
+int verif_setsockopt(int fd, int level, int name, const void *val, socklen_t len);
+void verif_check_superuser(void);
+int verif_get_addr(char *host, int port, int family, int flags, struct sockaddr_storage *out);
+int verif_open_dns(struct sockaddr_storage *sa, size_t len);
+int verif_open_dns_opt(struct sockaddr_storage *sa, size_t len, int v6only);
+int verif_open_dns_from_host(char *host, int port, int family, int flags);
+void verif_close_dns(int fd);
+void verif_do_chroot(char *dir);
+void verif_do_setcon(char *ctx);
+void verif_do_detach(void);
+void verif_do_pidfile(char *file);
+int verif_open_tun(const char *dev);
+void verif_close_tun(int fd);
+int verif_tun_setip(const char *ip, const char *other, int netbits);
+int verif_tun_setmtu(const unsigned mtu);
+#define exit(x) verif_exit(x)
+#define warnx(...) verif_warnx(__VA_ARGS__)
+#define warn(...) verif_warn(__VA_ARGS__)
+#define fprintf(...) verif_fprintf(__VA_ARGS__)
+#define getopt(a, b, c) verif_getopt(a, b, c)
+#define getenv(x) verif_getenv(x)
+#define getpwnam(x) verif_getpwnam(x)
+#define setgroups(a, b) verif_setgroups(a, b)
+#define setgid(x) verif_setgid(x)
+#define setuid(x) verif_setuid(x)
+#define signal(a, b) ((void) (b))
+#define openlog(a, b, c) ((void) 0)
+#define sd_listen_fds(x) verif_sd_listen_fds(x)
+#define sd_is_socket(a, b, c, d) verif_sd_is_socket(a, b, c, d)
+#define setsockopt(a, b, c, d, e) verif_setsockopt(a, b, c, d, e)
+#define check_superuser verif_check_superuser
+#define get_addr verif_get_addr
+#define open_dns verif_open_dns
+#define open_dns_opt verif_open_dns_opt
+#define open_dns_from_host verif_open_dns_from_host
+#define close_dns verif_close_dns
+#define do_chroot verif_do_chroot
+#define do_setcon verif_do_setcon
+#define do_detach verif_do_detach
+#define do_pidfile verif_do_pidfile
+#define open_tun verif_open_tun
+#define close_tun verif_close_tun
+#define tun_setip verif_tun_setip
+#define tun_setmtu verif_tun_setmtu
+#define tunnel(a, b, c, d) VERIF_TUNNEL_##a, b, c, d)
+#define VERIF_TUNNEL_int real_tunnel(int
+#define VERIF_TUNNEL_tun_fd verif_tunnel_stub(tun_fd
+
 #define main iodined_main
 #include "iodined.c"
 #undef main
+
+#undef exit
+#undef warnx
+#undef warn
+#undef fprintf
+#undef getopt
+#undef getenv
+#undef getpwnam
+#undef setgroups
+#undef setgid
+#undef setuid
+#undef signal
+#undef openlog
+#undef sd_listen_fds
+#undef sd_is_socket
+#undef setsockopt
+#undef check_superuser
+#undef get_addr
+#undef open_dns
+#undef open_dns_opt
+#undef open_dns_from_host
+#undef close_dns
+#undef do_chroot
+#undef do_setcon
+#undef do_detach
+#undef do_pidfile
+#undef open_tun
+#undef close_tun
+#undef tun_setip
+#undef tun_setmtu
+#undef tunnel
 
 /* from here on the harness talks to the real libc */
 #undef time
@@ -44,10 +150,23 @@ static int use_real_z;
 time_t verif_time(time_t *t) { if (t) *t = vnow; return vnow; }
 int verif_rand(void) { return randq_i < randq_n ? randq[randq_i++] : 0; }
 void verif_srand(unsigned s) { (void) s; }
-void verif_syslog(int pri, const char *fmt, ...) { (void) pri; (void) fmt; }
+static int mm;			/* op `main` is running */
+static void mm_ev(const char *fmt, ...);
+void verif_syslog(int pri, const char *fmt, ...)
+{
+	(void) pri;
+	if (mm && strstr(fmt, "started")) {
+		va_list ap;
+		va_start(ap, fmt);
+		mm_ev("started:%d", va_arg(ap, int));
+		va_end(ap);
+	}
+}
 int verif_system(const char *cmd) { (void) cmd; return 0; }
 unsigned verif_sleep(unsigned s) { (void) s; return 0; }
-ssize_t verif_recv(int fd, void *buf, size_t len, int flags) { (void) fd; (void) buf; (void) len; (void) flags; return -1; }
+static ssize_t mm_recv(void *buf, size_t len);
+static int mm_select(void);
+ssize_t verif_recv(int fd, void *buf, size_t len, int flags) { (void) fd; (void) flags; return mm ? mm_recv(buf, len) : -1; }
 
 int verif_compress2(Bytef *dest, uLongf *destLen, const Bytef *source, uLong sourceLen, int level)
 {
@@ -137,10 +256,12 @@ static sem_t sem_main, sem_worker;
 static pthread_t worker;
 static int worker_alive;
 
+static void mm_sent(const unsigned char *p, size_t len);
 int verif_select(int nfds, fd_set *r, fd_set *w, fd_set *e, struct timeval *tv)
 {
 	int n = 0;
 	(void) nfds; (void) w; (void) e;
+	if (mm) return mm_select();
 	sel_to = tv ? (long) tv->tv_sec * 1000000L + tv->tv_usec : -1;
 	sel_tun = FD_ISSET(TUN_FD, r) ? 1 : 0;
 	/* iteration finished: hand over to the main thread, wait for the next scripted input */
@@ -242,6 +363,7 @@ ssize_t verif_sendto(int fd, const void *buf, size_t len, int flags, const struc
 	const unsigned char *p = buf;
 	const char *kind;
 	(void) flags;
+	if (mm) { mm_sent(p, len); return (ssize_t) len; }
 	if (fd == BIND_FD) kind = "fwd";
 	else if (after_ans) kind = "tx";
 	else if (in_bind_op) kind = "rly";
@@ -283,7 +405,7 @@ static void *worker_main(void *arg)
 	fds.v4fd = V4_FD;
 	fds.v6fd = V6_FD;
 	running = 1;
-	tunnel(TUN_FD, &fds, bind_port ? BIND_FD : 0, 0);
+	real_tunnel(TUN_FD, &fds, bind_port ? BIND_FD : 0, 0);
 	sem_post(&sem_main);
 	return NULL;
 }
@@ -525,11 +647,309 @@ static void op_cfg(char **tok, int ntok)
 	printf("ok users=%d\n", created_users);
 }
 
+/* ------------------------------------------------------------------ op `main`: the real main() up to tunnel()
+ * main [E=<hex IODINED_PASS>] [T=<hex typed at the password prompt>] [X=<hex8 external ip>|X=fail] [V6=0] [SD=<n>] <hex argv0> <hex argv1> ...
+ * answer: `exit <code> <class>` | `ret <code>` | `run <code>`, then ` | ev <substituted OS calls in order>`, for `run` then ` | <digest of the globals>`
+ * stubs that can fail do so on names starting with '!': -u !x (getpwnam), -d !x (open_tun), -L !x (get_addr v6), -l <not a dotted quad starting with !> */
+static jmp_buf mm_jb;
+static int mm_code;
+static const char *mm_tag, *mm_ftag;
+static int mm_getopt_err;
+static char *mm_env_pass, *mm_typed;
+static int mm_ext_ok, mm_v6_ok, mm_sd;
+static unsigned char mm_ext_ip[4];
+static char mm_evbuf[16384];
+static size_t mm_evlen;
+static unsigned char mm_lastq[1024];
+static size_t mm_lastq_len;
+static struct passwd mm_pw;
+
+static void mm_ev(const char *fmt, ...)
+{
+	va_list ap;
+	int n;
+	if (mm_evlen + 2 >= sizeof(mm_evbuf)) return;
+	mm_evbuf[mm_evlen++] = ' ';
+	va_start(ap, fmt);
+	n = vsnprintf(mm_evbuf + mm_evlen, sizeof(mm_evbuf) - mm_evlen, fmt, ap);
+	va_end(ap);
+	if (n > 0) mm_evlen += (size_t) n < sizeof(mm_evbuf) - mm_evlen ? (size_t) n : sizeof(mm_evbuf) - mm_evlen - 1;
+}
+
+/* hex of a C string, "-" if empty, "null" for NULL (rotating static buffers) */
+static const char *mm_hs(const char *s)
+{
+	static char b[4][2100];
+	static int k;
+	char *o = b[k = (k + 1) & 3];
+	size_t i, n;
+	if (!s) return "null";
+	n = strlen(s);
+	if (n == 0) return "-";
+	if (n > 1000) n = 1000;
+	for (i = 0; i < n; i++) sprintf(o + 2 * i, "%02x", (unsigned char) s[i]);
+	return o;
+}
+
+void verif_exit(int code)
+{
+	if (!mm) exit(code);
+	mm_code = code;
+	longjmp(mm_jb, 1);
+}
+
+void verif_warnx(const char *fmt, ...)
+{
+	static const struct { const char *key, *tag; } tab[] = {
+		{ "Bad IP address to use inside tunnel", "myip" }, { "Invalid topdomain", "topdomain" }, { "does not exist", "nouser" },
+		{ "Bad MTU", "mtu" }, { "Bad port number", "port" }, { "Bad IPv4 address to listen", "listen4" },
+		{ "Failed to get IPv6 address", "listen6" }, { "Bad DNS server port", "bindport" }, { "Forward port is same", "loop" },
+		{ "Bad IP address to return as nameserver", "nsip" }, { "Bad netmask", "netmask" }, { "Could not switch", "setuid" },
+		{ "IPv6 not supported, skipping", "v6skip" }, { "file descriptors from systemd", "sderr" }, { "Unknown socket", "sdunknown" },
+		{ "Too many file descriptors", "sdmany" }, { NULL, NULL } };
+	int i;
+	if (!mm) return;
+	mm_tag = "other";
+	for (i = 0; tab[i].key; i++) if (strstr(fmt, tab[i].key)) mm_tag = tab[i].tag;
+	if (!strcmp(mm_tag, "v6skip") || !strncmp(mm_tag, "sd", 2)) { mm_ev("warn:%s", mm_tag); mm_tag = NULL; }
+}
+void verif_warn(const char *fmt, ...) { (void) fmt; }
+
+int verif_fprintf(FILE *f, const char *fmt, ...)
+{
+	(void) f;
+	if (!mm) return 0;
+	if (strstr(fmt, "Git version")) mm_ftag = "version";
+	else if (strstr(fmt, "Available options")) mm_ftag = "help";
+	else if (strstr(fmt, "Usage: ")) { if (!mm_ftag || strcmp(mm_ftag, "helphead")) mm_ftag = "usage"; }
+	else if (strstr(fmt, "iodine IP over DNS tunneling server\n\n")) mm_ftag = "helphead";
+	else if (strstr(fmt, "Failed to get external IP")) mm_ftag = "extip";
+	else if (strstr(fmt, "IPv6 not supported")) mm_ftag = "nov6";
+	return 0;
+}
+
+int verif_getopt(int argc, char *const argv[], const char *optstring)
+{
+	int r = getopt(argc, argv, optstring);
+	mm_getopt_err = (r != -1);		/* an exit while this is set comes from inside the option loop */
+	return r;
+}
+
+char *verif_getenv(const char *name)
+{
+	if (mm) return !strcmp(name, "IODINED_PASS") ? mm_env_pass : NULL;
+	return getenv(name);
+}
+
+struct passwd *verif_getpwnam(const char *name)
+{
+	if (name[0] == '!') return NULL;
+	memset(&mm_pw, 0, sizeof(mm_pw));
+	mm_pw.pw_uid = name[0] == '~' ? 1001 : 1000;
+	mm_pw.pw_gid = 1000;
+	return &mm_pw;
+}
+int verif_setgroups(size_t n, const gid_t *g) { (void) n; (void) g; return 0; }
+int verif_setgid(gid_t g) { (void) g; return 0; }
+int verif_setuid(uid_t u) { mm_ev("setuid:%u", (unsigned) u); return u == 1001 ? -1 : 0; }
+int verif_sd_listen_fds(int unset) { (void) unset; mm_ev("sd"); return mm_sd; }
+int verif_sd_is_socket(int fd, int family, int type, int listening)
+{
+	(void) type; (void) listening;
+	return (fd == 3 && family == AF_INET) || (fd == 4 && family == AF_INET6);
+}
+int verif_setsockopt(int fd, int level, int name, const void *val, socklen_t len)
+{
+	(void) fd; (void) level; (void) name; (void) val; (void) len;
+	return 0;
+}
+void verif_check_superuser(void) { }
+
+int verif_fscanf(FILE *f, const char *fmt, ...)
+{
+	va_list ap;
+	char *dst;
+	size_t n = 0;
+	(void) f;
+	if (!mm || strcmp(fmt, "%79[^\n]")) abort();
+	mm_ev("prompt");
+	va_start(ap, fmt);
+	dst = va_arg(ap, char *);
+	va_end(ap);
+	while (mm_typed && mm_typed[n] && mm_typed[n] != '\n' && n < 79) n++;
+	if (n == 0) return mm_typed && mm_typed[0] ? 0 : EOF;		/* a scanset conversion that matches nothing stores nothing */
+	memcpy(dst, mm_typed, n);
+	dst[n] = 0;
+	return 1;
+}
+int verif_tcgetattr(int fd, struct termios *t) { (void) fd; memset(t, 0, sizeof(*t)); return 0; }
+int verif_tcsetattr(int fd, int act, const struct termios *t) { (void) fd; (void) act; (void) t; return 0; }
+
+int verif_get_addr(char *host, int port, int family, int flags, struct sockaddr_storage *out)
+{
+	mm_ev("ga:%d:%s:%d:%d", family == AF_INET6 ? 6 : 4, mm_hs(host), port, flags);
+	memset(out, 0, sizeof(*out));
+	if (family == AF_INET6) {
+		struct sockaddr_in6 *a = (struct sockaddr_in6 *) out;
+		if (host ? host[0] == '!' : !mm_v6_ok) return -1;
+		a->sin6_family = AF_INET6;
+		a->sin6_port = htons((unsigned short) port);
+		return sizeof(*a);
+	} else {
+		struct sockaddr_in *a = (struct sockaddr_in *) out;
+		a->sin_family = AF_INET;
+		a->sin_port = htons((unsigned short) port);
+		if (!host) a->sin_addr.s_addr = htonl(INADDR_ANY);
+		else if (inet_pton(AF_INET, host, &a->sin_addr) != 1) {
+			if (host[0] == '!' || host[0] == 0) return -1;
+			a->sin_addr.s_addr = htonl(0xc6336435);	/* any other name "resolves" to 198.51.100.53 */
+		}
+		return sizeof(*a);
+	}
+}
+int verif_open_dns(struct sockaddr_storage *sa, size_t len)
+{
+	struct sockaddr_in *a = (struct sockaddr_in *) sa;
+	mm_ev("od4:%08x:%u:%u", (unsigned) ntohl(a->sin_addr.s_addr), (unsigned) ntohs(a->sin_port), (unsigned) len);
+	return V4_FD;
+}
+int verif_open_dns_opt(struct sockaddr_storage *sa, size_t len, int v6only)
+{
+	struct sockaddr_in6 *a = (struct sockaddr_in6 *) sa;
+	mm_ev("od6:%u:%u:%d", (unsigned) ntohs(a->sin6_port), (unsigned) len, v6only);
+	return V6_FD;
+}
+int verif_open_dns_from_host(char *host, int port, int family, int flags)
+{
+	mm_ev("odh:%s:%d:%d:%d", mm_hs(host), port, family == AF_INET6 ? 6 : 4, flags);
+	return flags ? 1005 : BIND_FD;
+}
+void verif_close_dns(int fd) { mm_ev("cd:%d", fd); }
+void verif_do_chroot(char *dir) { mm_ev("chroot:%s", mm_hs(dir)); }
+void verif_do_setcon(char *ctx) { mm_ev("setcon:%s", mm_hs(ctx)); }
+void verif_do_detach(void) { mm_ev("detach"); }
+void verif_do_pidfile(char *file) { mm_ev("pidfile:%s", mm_hs(file)); }
+int verif_open_tun(const char *dev) { mm_ev("tun:%s", mm_hs(dev)); return dev && dev[0] == '!' ? -1 : TUN_FD; }
+void verif_close_tun(int fd) { mm_ev("ct:%d", fd); }
+int verif_tun_setip(const char *ip, const char *other, int netbits) { mm_ev("setip:%s:%s:%d", mm_hs(ip), mm_hs(other), netbits); return 0; }
+int verif_tun_setmtu(const unsigned mtu) { mm_ev("setmtu:%u", mtu); return 0; }
+
+/* get_external_ip() runs unchanged: its query is answered with X=<ip> (or never, X=fail) */
+static void mm_sent(const unsigned char *p, size_t len)
+{
+	mm_ev("extq");
+	mm_lastq_len = len < sizeof(mm_lastq) ? len : sizeof(mm_lastq);
+	memcpy(mm_lastq, p, mm_lastq_len);
+}
+static int mm_select(void) { return mm_ext_ok ? 1 : 0; }
+static ssize_t mm_recv(void *buf, size_t len)
+{
+	unsigned char r[1100];
+	size_t i = 12, n;
+	static const unsigned char rr[] = { 0xc0, 0x0c, 0, 1, 0, 1, 0, 0, 0, 60, 0, 4 };
+	if (mm_lastq_len < 17) return -1;
+	while (i < mm_lastq_len && mm_lastq[i]) i += 1 + mm_lastq[i];
+	i += 5;
+	if (i > mm_lastq_len) return -1;
+	memcpy(r, mm_lastq, i);
+	r[2] |= 0x84; r[3] = 0;
+	r[6] = 0; r[7] = 1; r[8] = r[9] = r[10] = r[11] = 0;
+	memcpy(r + i, rr, sizeof(rr));
+	memcpy(r + i + sizeof(rr), mm_ext_ip, 4);
+	n = i + sizeof(rr) + 4;
+	if (n > len) n = len;
+	memcpy(buf, r, n);
+	return (ssize_t) n;
+}
+
+static int verif_tunnel_stub(int tun_fd, struct dnsfd *dns_fds, int bind_fd, int max_idle_time)
+{
+	mm_ev("tunnel:%d:%d:%d:%d:%d", tun_fd, dns_fds->v4fd, dns_fds->v6fd, bind_fd, max_idle_time);
+	return 0;
+}
+
+static void op_main(char **tok, int ntok)
+{
+	static char *args[70], *keep[70];
+	static int argc, rv, exited;
+	int i;
+	size_t n;
+	unsigned char *b;
+	stop_worker();
+	free(mm_env_pass); free(mm_typed);
+	mm_env_pass = mm_typed = NULL;
+	mm_ext_ok = 1; mm_v6_ok = 1; mm_sd = 0;
+	mm_ext_ip[0] = 192; mm_ext_ip[1] = 0; mm_ext_ip[2] = 2; mm_ext_ip[3] = 99;
+	argc = 0;
+	for (i = 1; i < ntok; i++) {
+		if (!strncmp(tok[i], "E=", 2) || !strncmp(tok[i], "T=", 2)) {
+			char *z;
+			b = hex_alloc(tok[i] + 2, &n);
+			if (!b) { puts("bad-op"); return; }
+			z = xmalloc(n + 1);
+			memcpy(z, b, n); z[n] = 0; free(b);
+			if (tok[i][0] == 'E') mm_env_pass = z; else mm_typed = z;
+		} else if (!strcmp(tok[i], "X=fail")) mm_ext_ok = 0;
+		else if (!strncmp(tok[i], "X=", 2)) {
+			b = hex_alloc(tok[i] + 2, &n);
+			if (!b || n != 4) { puts("bad-op"); return; }
+			memcpy(mm_ext_ip, b, 4); free(b);
+		} else if (!strncmp(tok[i], "V6=", 3)) mm_v6_ok = atoi(tok[i] + 3);
+		else if (!strncmp(tok[i], "SD=", 3)) mm_sd = atoi(tok[i] + 3);
+		else {
+			b = hex_alloc(tok[i], &n);
+			if (!b || argc >= 64) { puts("bad-op"); return; }
+			args[argc] = xmalloc(n + 1);		/* exactly sized: ASan sees any overread */
+			memcpy(args[argc], b, n); args[argc][n] = 0; free(b);
+			keep[argc] = args[argc];
+			argc++;
+		}
+	}
+	if (argc < 1) { puts("bad-op"); return; }
+	args[argc] = NULL;
+	/* the globals as the loader leaves them */
+	memset(password, 0, sizeof(password));
+	topdomain = NULL;
+	my_ip = 0; netmask = 0; my_mtu = 0; check_ip = 0; ns_ip = 0; bind_port = 0; debug = 0; created_users = 0;
+	running = 1;
+	if (users) { free(users); users = NULL; }
+	usercount = 0;
+	optind = 0; opterr = 0;
+	mm_evlen = 0; mm_evbuf[0] = 0;
+	mm_tag = mm_ftag = NULL;
+	mm_getopt_err = 0;
+	mm_lastq_len = 0;
+	mm = 1;
+	exited = 0;
+	if (!setjmp(mm_jb)) rv = iodined_main(argc, args);
+	else exited = 1;
+	mm = 0;
+	if (exited) {
+		const char *f = mm_ftag ? mm_ftag : "none";
+		if (!strcmp(f, "usage")) printf("exit %d usage:%s", mm_code, mm_tag ? mm_tag : mm_getopt_err ? "getopt" : "argc");
+		else printf("exit %d %s", mm_code, f);
+	} else if (!strstr(mm_evbuf, " tunnel:")) printf("ret %d", rv);
+	else printf("run %d", rv);
+	printf(" | ev%s", mm_evlen ? mm_evbuf : " -");
+	if (!exited && strstr(mm_evbuf, " tunnel:")) {
+		printf(" | pw=");
+		for (i = 0; i < 33; i++) printf("%02x", (unsigned char) password[i]);
+		printf(" td=%s ip=%08x nm=%d mtu=%d cip=%d ns=%08x bport=%d dbg=%d users=%d pool=", mm_hs(topdomain), (unsigned) ntohl(my_ip), netmask,
+		       my_mtu, check_ip, (unsigned) ntohl(ns_ip), bind_port, debug, created_users);
+		for (i = 0; i < created_users; i++) printf("%s%08x", i ? "," : "", (unsigned) ntohl(users[i].tun_ip));
+		if (created_users <= 0) printf("-");
+	}
+	putchar('\n');
+	for (i = 0; i < argc; i++) free(keep[i]);
+	if (users) { free(users); users = NULL; }
+	created_users = 0; usercount = 0;
+}
+
 int main(void)
 {
 	char *line = NULL;
 	size_t cap = 0;
-	char *tok[16];
+	char *tok[80];
 	int ntok;
 	const char *z = getenv("VERIF_Z");
 
@@ -542,9 +962,10 @@ int main(void)
 	evbuf[0] = 0;
 
 	while (getline(&line, &cap, stdin) > 0) {
-		ntok = split(line, tok, 16);
+		ntok = split(line, tok, 80);
 		if (ntok == 0) { puts("bad-op"); continue; }
 		if (!strcmp(tok[0], "cfg")) op_cfg(tok, ntok);
+		else if (!strcmp(tok[0], "main")) op_main(tok, ntok);
 		else if (!strcmp(tok[0], "time") && ntok == 2) { vnow = (time_t) atol(tok[1]); puts("ok"); }
 		else if (!strcmp(tok[0], "rand")) {
 			int i;
